@@ -54,8 +54,31 @@ fn families(tier: Tier) -> Vec<Family> {
 	]
 }
 
-fn check_overlay(ctx: &Ctx, rt: &tokio::runtime::Runtime, label: &str, vpl: &str, op: AnySrc, k: usize, coords: &[Key], assign: &[u32], comps: &[u8], zoom_keep: Option<(u8, u8)>, case: &Value) {
+fn check_overlay(ctx: &Ctx, rt: &tokio::runtime::Runtime, label: &str, vpl: &str, op: AnySrc, k: usize, coords: &[Key], assign: &[u32], comps: &[u8], zoom_keep: Option<(u8, u8)>, case: &Value, source_pyramids: &[TileBBoxPyramid]) {
 	let p = op.parameters().clone();
+	// advertised coverage = union (per level: bounding box) of what each source advertises on its own
+	if !source_pyramids.is_empty() {
+		for z in 0..=12u8 {
+			let mut u: Option<(u32, u32, u32, u32)> = None;
+			for sp in source_pyramids {
+				let b = sp.get_level_bbox(z);
+				if !b.is_empty() {
+					u = Some(match u {
+						None => (b.x_min, b.y_min, b.x_max, b.y_max),
+						Some(o) => (o.0.min(b.x_min), o.1.min(b.y_min), o.2.max(b.x_max), o.3.max(b.y_max)),
+					});
+				}
+			}
+			if zoom_keep.is_some_and(|(a, b)| z < a || z > b) {
+				u = None;
+			}
+			let g = p.bbox_pyramid.get_level_bbox(z);
+			let got = if g.is_empty() { None } else { Some((g.x_min, g.y_min, g.x_max, g.y_max)) };
+			if got != u {
+				ctx.violation("overlay coverage is not the union of the sources' coverages", &format!("{label}: level {z} advertised {got:?}, union of the sources' own level boxes {u:?}"), case.clone());
+			}
+		}
+	}
 	// declared compression: common one, else uncompressed
 	let want_comp = if comps.iter().all(|c| *c == comps[0]) { comps[0] } else { 0 };
 	if ct::comp_id(p.tile_compression) != want_comp {
@@ -166,8 +189,8 @@ fn check_overlay(ctx: &Ctx, rt: &tokio::runtime::Runtime, label: &str, vpl: &str
 pub fn run(ctx: Arc<Ctx>) {
 	ctx.rule(
 		"k in {2,3,4} sources; for every coordinate of a family the subset of sources that hold it - all (2^k)^n assignments (k=4: n=3 in quick); two coordinate families (32-sub-box / 256-block borders at two zooms; sparse-wide level with holes); \
-		 compression assignments (3 equal, 6 mixed pairs, 1 mixed triple) rotated over the assignments; sources answer and open with different delays (first slowest); nesting inside filter_zoom; thorough: the same data as real versatiles/pmtiles/tar/mbtiles files. \
-		 oracle: first source in list order wins, bytes decode (declared compression) to that source's payload, declared = common compression or uncompressed, coverage contains every returned tile, lookups = streams, absent iff no source has it. non-trivial = assignments where >= 2 sources hold one coordinate",
+		 compression assignments (3 equal, 6 mixed pairs, 1 mixed triple) rotated over the assignments; sources answer and open with different delays (first slowest); nesting inside filter_zoom; first source behind filter_zoom / filter_bbox stages that empty whole levels of it; the same data as real versatiles/pmtiles/tar/mbtiles files; dense 12x10 patches (three hold patterns) in pairs of real files of all five formats (quick: every 5th pair + versatiles/versatiles, thorough: all 25). \
+		 oracle: first source in list order wins, bytes decode (declared compression) to that source's payload, declared = common compression or uncompressed, coverage contains every returned tile and equals the per-level union of what each source advertises on its own, lookups = streams, absent iff no source has it. non-trivial = assignments where >= 2 sources hold one coordinate",
 	);
 	let work = ct::WorkDir::new("c08");
 	let fams = families(ctx.tier);
@@ -210,15 +233,38 @@ pub fn run(ctx: Arc<Ctx>) {
 			sources.push(MemSource::new(&format!("s{j}"), tiles, TileFormat::BIN, ct::comp_from_id(comps[j])).with_yields((k - 1 - j) as u8));
 		}
 		let nested = ji % 5 == 3;
-		let list = (0..k).map(|j| format!("from_container filename=\"mem:{j}\"")).collect::<Vec<_>>().join(", ");
+		// the first source behind a filter that empties whole levels of it (zoom filter / a box that misses its tiles)
+		let first_filter: Option<&str> = match ji % 5 {
+			1 => Some(" | filter_zoom min=9"),
+			2 => Some(" | filter_bbox bbox=[0,-85,180,0]"),
+			_ => None,
+		};
+		let exprs: Vec<String> = (0..k).map(|j| format!("from_container filename=\"mem:{j}\"{}", if j == 0 { first_filter.unwrap_or("") } else { "" })).collect();
+		let list = exprs.join(", ");
 		let vpl = if nested { format!("from_overlayed [ {list} ] | filter_zoom min=6 max=9") } else { format!("from_overlayed [ {list} ]") };
 		let case = json!({"family": f.name, "k": k, "assignment": assign, "compressions": comps, "vpl": vpl});
+		// what the filtered first source still holds
+		let eff: Vec<u32> = assign
+			.iter()
+			.zip(f.coords.iter())
+			.map(|(a, c)| {
+				let half = 1u32 << (c.0.max(1) - 1);
+				let keep0 = match ji % 5 {
+					1 => c.0 >= 9,
+					2 => c.0 >= 1 && c.1 >= half && c.2 >= half,
+					_ => true,
+				};
+				if keep0 { *a } else { *a & !1 }
+			})
+			.collect();
 		let fac = pipeline::factory(sources, &wpath);
 		ctxr.transition(1);
+		let pyramids: Vec<TileBBoxPyramid> = exprs.iter().filter_map(|e| pipeline::build_op(&rt, &fac, e).ok()).map(|o| o.get_parameters().bbox_pyramid.clone()).collect();
 		match pipeline::build_op(&rt, &fac, &vpl) {
 			Err(e) => ctxr.violation(&format!("overlay cannot be built: {}", super::c01::norm_msg(&e)), &format!("{vpl}: {e}{}", if empty_source { " (a source without tiles)" } else { "" }), case),
 			Ok(op) => {
-				check_overlay(ctxr, &rt, &format!("{} k={k} assignment {assign:?} comps {comps:?}{}", f.name, if nested { " nested in filter_zoom" } else { "" }), &vpl, AnySrc::Op(op), k, &f.coords, assign, comps, if nested { Some((6, 9)) } else { None }, &case);
+				let py: &[TileBBoxPyramid] = if pyramids.len() == k { &pyramids } else { &[] };
+				check_overlay(ctxr, &rt, &format!("{} k={k} assignment {assign:?} comps {comps:?}{}{}", f.name, if nested { " nested in filter_zoom" } else { "" }, first_filter.map(|f| format!(", first source{f}")).unwrap_or_default()), &vpl, AnySrc::Op(op), k, &f.coords, &eff, comps, if nested { Some((6, 9)) } else { None }, &case, py);
 				ctxr.trace(1);
 			}
 		}
@@ -264,10 +310,11 @@ pub fn run(ctx: Arc<Ctx>) {
 			let vpl = format!("from_overlayed [ from_container filename=\"{}\", from_container filename=\"{}\" ]", names[0], names[1]);
 			let case = json!({"family": f.name, "files": names, "assignment": assign, "vpl": vpl});
 			let fac = pipeline::factory(vec![], &work.0);
+			let pyramids: Vec<TileBBoxPyramid> = names.iter().filter_map(|n| pipeline::build_op(&rt, &fac, &format!("from_container filename=\"{n}\"")).ok()).map(|o| o.get_parameters().bbox_pyramid.clone()).collect();
 			match pipeline::build_op(&rt, &fac, &vpl) {
 				Err(e) => ctx.violation(&format!("overlay over container files cannot be built: {}", super::c01::norm_msg(&e)), &format!("{vpl}: {e}"), case),
 				Ok(op) => {
-					check_overlay(&ctx, &rt, &format!("files {names:?} assignment {assign:?}"), &vpl, AnySrc::Op(op), 2, &f.coords, &assign, &[0, 0], None, &case);
+					check_overlay(&ctx, &rt, &format!("files {names:?} assignment {assign:?}"), &vpl, AnySrc::Op(op), 2, &f.coords, &assign, &[0, 0], None, &case, if pyramids.len() == 2 { &pyramids } else { &[] });
 					ctx.trace(1);
 				}
 			}
@@ -275,6 +322,73 @@ pub fn run(ctx: Arc<Ctx>) {
 				let _ = std::fs::remove_file(work.0.join(n));
 			}
 		}
+	}
+	// dense patches in real container files of every format (small streamed boxes inside one stored block)
+	{
+		let mut coords: Vec<Key> = vec![];
+		for x in 26..38u32 {
+			for y in 27..37u32 {
+				coords.push((6, x, y));
+			}
+		}
+		coords.push((9, 255, 256));
+		coords.push((9, 256, 256));
+		let patterns: Vec<(&str, Box<dyn Fn(&Key) -> u32>)> = vec![
+			("first = checkerboard, second = all", Box::new(|c: &Key| if (c.1 + c.2) % 2 == 0 { 3 } else { 2 })),
+			("first = left columns, second = right columns, one shared column", Box::new(|c: &Key| if c.0 == 9 { 3 } else if c.1 < 32 { 1 } else if c.1 == 32 { 3 } else { 2 })),
+			("first = a ring, second = the inside", Box::new(|c: &Key| if c.0 == 9 { 1 } else if c.1 == 26 || c.1 == 37 || c.2 == 27 || c.2 == 36 { 1 } else { 2 })),
+		];
+		let all_conts = [Cont::Versatiles, Cont::Pmtiles, Cont::Tar, Cont::Mbtiles, Cont::Directory];
+		let mut n = 0u64;
+		for (pi, (pname, pat)) in patterns.iter().enumerate() {
+			let assign: Vec<u32> = coords.iter().map(|c| pat(c)).collect();
+			for (ai, a) in all_conts.iter().enumerate() {
+				for (bi, b) in all_conts.iter().enumerate() {
+					if ctx.tier == Tier::Quick && (ai + 2 * bi + pi) % 5 != 0 && !(*a == Cont::Versatiles && *b == Cont::Versatiles) {
+						continue;
+					}
+					let mut names = vec![];
+					for (j, cont) in [*a, *b].iter().enumerate() {
+						let tiles: TileMap = coords.iter().zip(assign.iter()).filter(|(_, m)| *m >> j & 1 == 1).map(|(c, _)| (*c, payload(j, *c))).collect();
+						let mut src = MemSource::new("m", tiles, TileFormat::PNG, TileCompression::Uncompressed);
+						let stem = format!("d{pi}_{ai}{bi}_{j}");
+						let name = format!("{stem}.{}", ct::ext(*cont));
+						match ct::write(&rt, *cont, &mut src, &work.0, &stem) {
+							Ok(ct::Written::Bytes(bytes)) => std::fs::write(work.0.join(&name), bytes).unwrap(),
+							Ok(ct::Written::Path(p)) => {
+								if p != work.0.join(&name) {
+									let _ = std::fs::rename(&p, work.0.join(&name));
+								}
+							}
+							Err(e) => {
+								eprintln!("MACHINERY: cannot write {name}: {e}");
+								std::process::exit(2);
+							}
+						}
+						names.push(name);
+					}
+					let vpl = format!("from_overlayed [ from_container filename=\"{}\", from_container filename=\"{}\" ]", names[0], names[1]);
+					let case = json!({"family": "dense patches", "pattern": pname, "files": names, "vpl": vpl});
+					let fac = pipeline::factory(vec![], &work.0);
+					let pyramids: Vec<TileBBoxPyramid> = names.iter().filter_map(|n| pipeline::build_op(&rt, &fac, &format!("from_container filename=\"{n}\"")).ok()).map(|o| o.get_parameters().bbox_pyramid.clone()).collect();
+					match pipeline::build_op(&rt, &fac, &vpl) {
+						Err(e) => ctx.violation(&format!("overlay over container files cannot be built: {}", super::c01::norm_msg(&e)), &format!("{vpl}: {e}"), case),
+						Ok(op) => {
+							check_overlay(&ctx, &rt, &format!("dense patches ({pname}) in files {names:?}"), &vpl, AnySrc::Op(op), 2, &coords, &assign, &[0, 0], None, &case, if pyramids.len() == 2 { &pyramids } else { &[] });
+							ctx.trace(1);
+							ctx.nontrivial(fnv_str(&format!("dense{pi}{ai}{bi}")));
+							n += 1;
+						}
+					}
+					for nme in names {
+						let p = work.0.join(nme);
+						let _ = std::fs::remove_file(&p);
+						let _ = std::fs::remove_dir_all(&p);
+					}
+				}
+			}
+		}
+		ctx.outcome_n("dense-patch overlays over pairs of real container files", n);
 	}
 	ctx.sample(json!({"family": fams[1].name, "coordinates": fams[1].coords, "k": 3, "assignment_example": [5, 2, 7, 0], "meaning": "bit j of entry i = source j holds coordinate i"}));
 	ctx.exhaustive(true);
